@@ -669,8 +669,19 @@ func checkC20(p *Prog, res *Result, tier string) {
 	checkRequestSizedAllocations(p, res)
 	checkLabelValueSanitised(p, res)
 	checkRingIndexing(p, res)
+	checkStreamResponsesComplete(p, res, "C20-R2")
 	// R7: self-deadlock (C19-R5)
 	checkSelfDeadlock(p, p.lockContext(), res, "C20-R7")
+	// the in-process engine holds its store lock from BeginBatchWrite to Commit: a batch that is begun and not
+	// committed on some path wedges every later request (C11-R2, C01-R2 commit discipline)
+	{
+		sub11 := p.subResult("C11", tier)
+		for _, o := range sub11.Obls {
+			if o.Rule == "C11-R2" && (strings.Contains(o.Construct, "committed") || strings.Contains(o.Construct, "memkv")) {
+				res.add("C20-R7", o.Rule+" "+o.Construct, o.Status, o.Pos, o.Detail)
+			}
+		}
+	}
 
 }
 
@@ -1530,4 +1541,58 @@ func (lr *labelRes) mapValueNames(m ssa.Value, depth int) ([]string, bool) {
 		}
 	}
 	return uniq(out), n > 0
+}
+
+// checkStreamResponsesComplete: the one abort on a request path that C20-R2 accepts is the shim's "stream response
+// without RangeResponse / Header" assertion. It is an internal invariant only as long as every producer of a
+// StreamRangeResponse sets both - which is what this rule checks at every literal of the type.
+func checkStreamResponsesComplete(p *Prog, res *Result, rule string) {
+	srT := p.namedType("github.com/kubewharf/kubebrain-client/api/v2rpc", "StreamRangeResponse")
+	n := 0
+	for _, f := range p.AllFuncs {
+		if f.Synthetic != "" || f.Pkg == nil || !strings.HasPrefix(f.Pkg.Pkg.Path(), modPath) {
+			continue
+		}
+		k := 0
+		for _, b := range f.Blocks {
+			for _, ins := range b.Instrs {
+				al, ok := ins.(*ssa.Alloc)
+				if !ok || !types.Identical(al.Type().(*types.Pointer).Elem(), srT) {
+					continue
+				}
+				n++
+				k++
+				construct := fmt.Sprintf("%s: stream response #%d carries RangeResponse and Header", funcName(f), k)
+				fieldVal := func(a *ssa.Alloc, name string) ssa.Value {
+					for _, ref := range *a.Referrers() {
+						if fa, ok := ref.(*ssa.FieldAddr); ok && fieldOf(fa).Name() == name {
+							for _, r2 := range *fa.Referrers() {
+								if st, ok := r2.(*ssa.Store); ok && st.Addr == ssa.Value(fa) {
+									return st.Val
+								}
+							}
+						}
+					}
+					return nil
+				}
+				rr := fieldVal(al, "RangeResponse")
+				good := false
+				if rr != nil && !isNilConst(rr) {
+					if ra, ok := resolve(rr).(*ssa.Alloc); ok {
+						if h := fieldVal(ra, "Header"); h != nil && !isNilConst(h) {
+							good = true
+						}
+					}
+				}
+				if good {
+					res.ok(rule, construct, p.pos(al.Pos()), "both set in the literal")
+				} else {
+					res.bad(rule, construct, p.pos(al.Pos()), "a stream response is built without RangeResponse or without its Header: the etcd shim's forwarder treats that as a broken internal invariant and aborts the process (klog.Fatalf) - a request whose range stream fails (a revision below the compaction floor is enough) then kills the node")
+				}
+			}
+		}
+	}
+	if n == 0 {
+		res.und(rule, "stream responses", "-", "no literal of StreamRangeResponse found")
+	}
 }
